@@ -56,6 +56,141 @@ func loadKnownFindings(path string) (known []finding, fixed []string) {
 	return
 }
 
+var unknownIdentRe = regexp.MustCompile(`unknown identifier "([A-Za-z_][A-Za-z_0-9]*)"`)
+var identTokenRe = regexp.MustCompile(`[A-Za-z_][A-Za-z_0-9]*`)
+
+// rebindRenamedLocals: a contract names local variables of the function (loop invariants have to). When a clause
+// fails to elaborate because such a name no longer exists in the source, the local has most likely been RENAMED - a
+// harmless edit that must not raise an alarm. The names of the function's current locals that the contract does not
+// mention are tried in its place; a rebinding is accepted only if the whole contract then elaborates AND every
+// obligation of the function discharges. This is sound for the obligations proved (a loop invariant is proved
+// inductive under whatever name it is stated; a call clause is proved at its call site); the accepted rebinding is
+// printed and listed among the assumptions of the run.
+func rebindRenamedLocals(tr *Tr, fn *ssa.Function, ct *Contract, translate func(map[string]string) *Tr, workDir string, sec, seed int, knownObl map[string]bool) (*Tr, string) {
+	missing := map[string]bool{}
+	for _, u := range tr.unsupported {
+		for _, m := range unknownIdentRe.FindAllStringSubmatch(u, -1) {
+			missing[m[1]] = true
+		}
+	}
+	if len(missing) == 0 || len(missing) > 2 || ct == nil {
+		return nil, ""
+	}
+	mentioned := map[string]bool{}
+	for _, cls := range [][]*Clause{ct.Requires, ct.Assumes, ct.Ensures, ct.LoopInv, ct.LoopBack, ct.Panics, ct.Ghost, ct.Calls, ct.Asserts, ct.Preserves} {
+		for _, c := range cls {
+			for _, tok := range identTokenRe.FindAllString(c.Text, -1) {
+				mentioned[tok] = true
+			}
+		}
+	}
+	params := map[string]bool{}
+	for _, p := range fn.Params {
+		params[p.Name()] = true
+	}
+	candSet := map[string]bool{}
+	for _, b := range fn.Blocks {
+		for _, in := range b.Instrs {
+			name := ""
+			switch x := in.(type) {
+			case *ssa.Phi:
+				name = x.Comment
+			case *ssa.Alloc:
+				name = x.Comment
+			case *ssa.DebugRef:
+				if obj := x.Object(); obj != nil {
+					if v, isVar := obj.(*types.Var); isVar && !v.IsField() {
+						name = obj.Name()
+					}
+				}
+			}
+			if name != "" && name != "_" && !mentioned[name] && !params[name] && identTokenRe.FindString(name) == name {
+				candSet[name] = true
+			}
+		}
+	}
+	for p := range params { // a renamed parameter
+		if p != "" && p != "_" && !mentioned[p] {
+			candSet[p] = true
+		}
+	}
+	var miss, cands []string
+	for m := range missing {
+		miss = append(miss, m)
+	}
+	for c := range candSet {
+		cands = append(cands, c)
+	}
+	sort.Strings(miss)
+	sort.Strings(cands)
+	dbg := os.Getenv("LBVC_DEBUG_REBIND") != ""
+	if dbg {
+		fmt.Fprintf(os.Stderr, "rebind %s: missing %v candidates %v\n", tr.key, miss, cands)
+	}
+	if len(cands) == 0 || len(cands) > 60 || (len(miss) == 2 && len(cands) > 10) {
+		return nil, ""
+	}
+	var tries []map[string]string
+	if len(miss) == 1 {
+		for _, c := range cands {
+			tries = append(tries, map[string]string{miss[0]: c})
+		}
+	} else {
+		for _, c1 := range cands {
+			for _, c2 := range cands {
+				if c1 != c2 {
+					tries = append(tries, map[string]string{miss[0]: c1, miss[1]: c2})
+				}
+			}
+		}
+	}
+	for _, al := range tries {
+		t2 := translate(al)
+		clean := true
+		before := map[string]bool{}
+		for _, u := range tr.unsupported {
+			before[u] = true
+		}
+		for _, u := range t2.unsupported {
+			// a reading under which a clause still does not elaborate (or fails in a new way, e.g. a type error)
+			// leaves that clause without obligations: not acceptable
+			if strings.Contains(u, "unknown identifier") || strings.Contains(u, "translator panic") || !before[u] {
+				clean = false
+			}
+		}
+		if !clean || len(t2.unsupported) > len(tr.unsupported) || len(t2.obls) < len(tr.obls) {
+			if dbg {
+				fmt.Fprintf(os.Stderr, "rebind %s: %v rejected at translation: clean=%v unsupported %d->%d obligations %d->%d %v\n", tr.key, al, clean, len(tr.unsupported), len(t2.unsupported), len(tr.obls), len(t2.obls), t2.unsupported)
+			}
+			continue
+		}
+		solveAll(t2.obls, workDir, sec, seed, 10)
+		os.RemoveAll(workDir)
+		ok := true
+		for _, o := range t2.obls {
+			if o.Expect == "sat" {
+				if o.Status == "cover-failed" {
+					ok = false
+				}
+			} else if o.Status != "discharged" && !knownObl[o.Name] {
+				ok = false
+				if dbg {
+					fmt.Fprintf(os.Stderr, "rebind %s: %v rejected: %s is %s\n", tr.key, al, o.Name, o.Status)
+				}
+			}
+		}
+		if !ok {
+			continue
+		}
+		var parts []string
+		for _, m := range miss {
+			parts = append(parts, fmt.Sprintf("%q is read as the local %q", m, al[m]))
+		}
+		return t2, "contract identifier " + strings.Join(parts, ", ") + " (the contract names a local that is no longer in the source - renamed; accepted because every obligation of the function discharges under this reading)"
+	}
+	return nil, ""
+}
+
 func loadSpecs(w *World, verifDir string) *Specs {
 	sp := newSpecs()
 	// contracts kept in the repository next to the code (build tag verif)
@@ -194,6 +329,14 @@ func cmdCheck(args []string) int {
 	var frs []*fnReport
 	var undecided []string
 	trusted := map[string]bool{}
+	knownObls := map[string]bool{}
+	if kf, _ := loadKnownFindings(filepath.Join(*verifDir, "known-findings.txt")); kf != nil {
+		for _, f := range kf {
+			if f.Prop == *prop || *prop == "" {
+				knownObls[f.Obl] = true
+			}
+		}
+	}
 	var keys []string
 	for k, ct := range sp.Contracts {
 		if ct.Assumed {
@@ -216,22 +359,32 @@ func cmdCheck(args []string) int {
 			undecided = append(undecided, "contract target not found: "+k)
 			continue
 		}
-		tr := newTr(w, sp, ms, fn)
 		if *verbose {
 			fmt.Fprintf(os.Stderr, "translating %s\n", k)
 		}
-		func() {
-			defer func() {
-				if r := recover(); r != nil {
-					tr.unsupported = append(tr.unsupported, fmt.Sprintf("translator panic: %v", r))
-					if *verbose {
-						panic(r)
+		translate := func(aliases map[string]string) *Tr {
+			tr := newTr(w, sp, ms, fn)
+			tr.aliases = aliases
+			func() {
+				defer func() {
+					if r := recover(); r != nil {
+						tr.unsupported = append(tr.unsupported, fmt.Sprintf("translator panic: %v", r))
+						if *verbose && aliases == nil {
+							panic(r)
+						}
 					}
-				}
+				}()
+				tr.addAxioms()
+				tr.run(true)
 			}()
-			tr.addAxioms()
-			tr.run(true)
-		}()
+			return tr
+		}
+		tr := translate(nil)
+		if tr2, note := rebindRenamedLocals(tr, fn, sp.Contracts[k], translate, filepath.Join(*verifDir, ".work", fmt.Sprintf("%s-%d-rebind", *prop, os.Getpid())), sec, seed, knownObls); tr2 != nil {
+			tr = tr2
+			fmt.Printf("NOTE: %s: %s\n", k, note)
+			trusted[note] = true
+		}
 		fr := &fnReport{Key: k, Pos: w.pos(fn.Pos()), Obligations: len(tr.obls), Unsupported: tr.unsupported, Notes: tr.notes}
 		frs = append(frs, fr)
 		for _, u := range tr.unsupported {
@@ -465,8 +618,27 @@ func cmdCheck(args []string) int {
 			}
 		}
 	}
-	for _, u := range undecided {
+	// A contract clause that can no longer be stated on this code (its function is gone, it names something that does
+	// not exist any more, it no longer type-checks) generates no obligation: what it established on the unchanged tree
+	// is not established here. That is reported - as undecided, with the reason, and as a violation without a failing
+	// input - rather than passed over in silence. (Renamed locals and parameters are rebound first, see
+	// rebindRenamedLocals.)
+	for i, u := range undecided {
 		fmt.Printf("UNDECIDED: %s\n", u)
+		if *prop == "" {
+			continue
+		}
+		nViol++
+		name := fmt.Sprintf("contract-not-applicable-%d", i+1)
+		path := filepath.Join(replayDirOf(*verifDir), *prop+"-"+name+".json")
+		rj, _ := json.MarshalIndent(map[string]interface{}{"property": *prop, "obligation": name, "kind": "contract clause that cannot be stated on this code",
+			"status": "undecided", "what": u, "replay": "no failing input: the obligations this clause generated on the unchanged tree (all discharged there) cannot be generated on this code"}, "", " ")
+		os.WriteFile(path, rj, 0o644)
+		fmt.Printf("VIOLATION property=%s replay=%s no-failing-input-found\n", *prop, path)
+		fmt.Printf("  failed obligation %s (undecided): %s\n", name, u)
+		if exit == 0 {
+			exit = 1
+		}
 	}
 	if nProof == 0 && len(undecided) == 0 && !boundedOnly {
 		fmt.Printf("BROKEN-CHECK: no obligations generated for %s\n", *prop)
